@@ -166,14 +166,25 @@ Theorem C01_defaults_ok_sound : forall T, defaults_ok T = true ->
   p_state p = PDefault v ->
   Value.render_prop_default T (fuel_of T) (p_ty p) v = Defaults.ROk None \/
   exists e, Value.render_prop_default T (fuel_of T) (p_ty p) v = Defaults.ROk (Some e) /\
-            Value.expr_typed T (fuel_of T) e (p_ty p) = true.
+            default_typed_cfg default_variant_fixed T e (p_ty p) = true.
 Proof. exact defaults_ok_sound. Qed.
 
-(* the default of a one-element tuple variant is rendered `E::V(x)` for `V((T,))` (finding C01-16) *)
-Theorem C01_default_tuple1_sound : forall T, default_tuple1_ok T = true ->
+(* the default of a one-element tuple variant.  Since fix 15ce314 (= patches/C06-7.diff) value.rs builds
+   `E::V((x,))`: the conjunct holds for EVERY space.  With the pre-fix rendering `E::V(x)` it held only
+   when no rendered default constructs such a variant (finding C01-16 = C06-F13, now a regression case). *)
+Theorem C01_default_tuple1_fixed : forall T, default_tuple1_ok T = true.
+Proof. exact default_tuple1_fixed. Qed.
+
+Theorem C01_default_tuple1_prefix_sound : forall T, default_tuple1_ok_cfg false T = true ->
   forall d, In d (named_dets T) -> forall e, In e (rendered_defaults T d) ->
-  Value.expr_any (tuple1_variant_expr T) e = false.
-Proof. exact default_tuple1_sound. Qed.
+  Value.expr_any (tuple1_variant_expr_cfg false T) e = false.
+Proof. exact default_tuple1_prefix_sound. Qed.
+
+Theorem C01_default_tuple1_regression :
+  default_tuple1_ok_cfg false (witness CDefaultTuple1) = false /\
+  default_tuple1_ok (witness CDefaultTuple1) = true /\
+  defaults_ok (witness CDefaultTuple1) = true.
+Proof. exact default_tuple1_regression. Qed.
 
 (* ---- (f) no infinitely sized types ---- *)
 (* from C07: after break_cycles no node reachable from the new ids lies on a by-value cycle of the
@@ -227,7 +238,8 @@ Theorem C01_prelude_clean_sound : forall T,
 Proof. exact prelude_sound. Qed.
 
 (* ---- the recorded classes are inside the model: every conjunct that can fail has a failing space ---- *)
-Theorem C01_known_classes_fail : forall c, c <> CFromTuple1 -> holds Sanitize.ascii_classes (witness c) c = false.
+Theorem C01_known_classes_fail : forall c, c <> CFromTuple1 -> c <> CDefaultTuple1 ->
+  holds Sanitize.ascii_classes (witness c) c = false.
 Proof. exact known_classes_fail. Qed.
 
 (* ---- non-vacuity ---- *)
